@@ -19,21 +19,21 @@
 EXTENDS Peering, Sequences, Json, IOUtils, TLCExt
 Traces == JsonDeserialize(IOEnv.TRACE_FILE)
 CONSTANT Grace
-VARIABLES tid, l, now, since, dcount, lsr, bad
-tvars == <<vars, tid, l, now, since, dcount, lsr, bad>>
+VARIABLES tid, l, now, since, dcount, dlive, lsr, bad
+tvars == <<vars, tid, l, now, since, dcount, dlive, lsr, bad>>
 T == Traces[tid].events
 E == T[l]
 ToSet(s) == {s[i] : i \in DOMAIN s}
 
 TInit == /\ tid \in 1..Len(Traces) /\ l = 1 /\ now = 0 /\ bad = "none"
          /\ Init0(Traces[tid].conf)
-         /\ since = [o \in Ops |-> -1] /\ dcount = [o \in Ops |-> 0] /\ lsr = [o \in Ops |-> FALSE]
+         /\ since = [o \in Ops |-> -1] /\ dcount = [o \in Ops |-> 0] /\ dlive = {} /\ lsr = [o \in Ops |-> FALSE]
 Ev(e) == l <= Len(T) /\ E.ev = e /\ E.t = now /\ l' = l + 1 /\ UNCHANGED <<tid, now>>
-Quietly == UNCHANGED dcount
+Quietly == UNCHANGED <<dcount, dlive>>
 
 TStart == Ev("start") /\ Start(E.o) /\ Quietly
 TStop  == Ev("stop") /\ Stop(E.o) /\ Quietly
-TKill  == Ev("kill") /\ Kill(E.o) /\ dcount' = [dcount EXCEPT ![E.o] = 0]
+TKill  == Ev("kill") /\ Kill(E.o) /\ dcount' = [dcount EXCEPT ![E.o] = 0] /\ dlive' = {d \in dlive : d[1] # E.o}
 TDown  == Ev("down") /\ Quietly /\ IF ENABLED Down(E.o) THEN Down(E.o) ELSE Kill(E.o)    \* returned without withdrawing: see StepBad
 \* (an operator that withdraws its record without having been asked to stop has failed: explained as Stop . Withdraw, see StepBad)
 SelfStop(o) == st[o] = "up" /\ E.after[o] = NoRec /\ status[o] # NoRec /\ Stop(o)
@@ -63,8 +63,8 @@ Label(cond, name) == IF cond /\ bad = "none" THEN name ELSE "none"
 TList  == Ev("list") /\ UNCHANGED vars /\ Quietly
 TWatch == Ev("watch") /\ UNCHANGED vars /\ Quietly
 TInv   == Ev("inv") /\ UNCHANGED vars /\ Quietly
-TDStart == Ev("dstart") /\ UNCHANGED vars /\ dcount' = [dcount EXCEPT ![E.o] = @ + 1]
-TDExit  == Ev("dexit") /\ UNCHANGED vars /\ dcount' = [dcount EXCEPT ![E.o] = IF @ > 0 THEN @ - 1 ELSE 0]
+TDStart == Ev("dstart") /\ UNCHANGED vars /\ dcount' = [dcount EXCEPT ![E.o] = @ + 1] /\ dlive' = dlive \cup {<<E.o, E.name>>}
+TDExit  == Ev("dexit") /\ UNCHANGED vars /\ dcount' = [dcount EXCEPT ![E.o] = IF @ > 0 THEN @ - 1 ELSE 0] /\ dlive' = dlive \ {<<E.o, E.name>>}
 TQuiet == Ev("quiet") /\ ~Urgent /\ UNCHANGED vars /\ Quietly
 
 Advance == /\ l <= Len(T) /\ E.t > now /\ Tick /\ now' = now + 1 /\ UNCHANGED <<tid, l>> /\ Quietly
@@ -78,6 +78,7 @@ StepBad ==
          [] E.ev = "down" /\ st[E.o] = "exiting" /\ ~(wd[E.o] \/ ~touched[E.o]) -> "record_left_behind_after_graceful_exit"
          [] E.ev \in {"list", "watch"} /\ paused[E.o] /\ since[E.o] >= 0 /\ since[E.o] < now -> "listed_or_watched_while_paused"
          [] E.ev = "watch" /\ ~lsr[E.o] -> "resumed_without_a_fresh_listing"
+         [] E.ev = "dstart" /\ <<E.o, E.name>> \in dlive -> "two_instances_of_a_daemon_at_once"      \* C09: the previous one has not ended
          [] E.ev = "inv" /\ paused[E.o] /\ since[E.o] >= 0 /\ E.ct > since[E.o] -> "handled_a_change_committed_after_pausing"
          [] E.ev = "quiet" /\ ~Stable -> "not_paused_or_not_resumed_at_rest"
          [] E.ev = "quiet" /\ Distinct /\ NoLiveExt /\ ActiveOps # Tops -> "the_top_operator_is_not_the_active_one"
@@ -89,14 +90,15 @@ StateBad ==
   ELSE IF ~WithdrawsOnExit' THEN "record_left_behind_after_graceful_exit"
   ELSE IF Family_F26' /\ ~Family_F26 THEN "F26"
   ELSE IF Family_F27' /\ ~Family_F27 THEN "F27"
-  ELSE IF \E o \in Ops : paused'[o] /\ since'[o] >= 0 /\ now' - since'[o] > Grace /\ dcount'[o] > 0 THEN "daemon_alive_while_paused"
+  ELSE IF \E o \in Ops : paused'[o] /\ since'[o] >= 0 /\ now' - since'[o] > Grace /\ dcount'[o] > 0 /\ ~Traces[tid].dsync THEN "daemon_alive_while_paused"
   ELSE "none"
 
 TNext == /\ (TStart \/ TStop \/ TKill \/ TDown \/ TWrite \/ TSelfStop \/ TExt \/ TEval \/ TEvalEnd \/ TBegin \/ TList \/ TWatch \/ TInv \/ TDStart \/ TDExit \/ TQuiet \/ Advance)
          /\ since' = [o \in Ops |-> IF paused'[o] /\ ~paused[o] THEN now ELSE IF ~paused'[o] THEN -1 ELSE since[o]]
          /\ bad' = (IF bad # "none" THEN bad ELSE IF StepBad # "none" THEN StepBad ELSE StateBad)
          \* the streams are re-listed after every resume: the listing is forgotten while paused or down
-         /\ lsr' = [o \in Ops |-> IF paused'[o] \/ st'[o] # "up" THEN FALSE
+         \* (an operator that was asked to stop still works until its streams are closed: a resume then lists and watches, too)
+         /\ lsr' = [o \in Ops |-> IF paused'[o] \/ st'[o] = "down" THEN FALSE
                                   ELSE IF l' # l /\ E.ev = "list" /\ E.o = o THEN TRUE ELSE lsr[o]]
 TSpec == TInit /\ [][TNext]_tvars
 
